@@ -8,6 +8,7 @@ CONSTANTS
   Extra <- NoExtra
   GFirst = TRUE
   SelDet = TRUE
+  LogOn = TRUE
   POR = TRUE
 CONSTRAINT DumpAll
 CHECK_DEADLOCK FALSE
